@@ -46,6 +46,9 @@ type Scripter struct {
 // Install hooks the scripter into the BMC (replacing any Intercept).
 func (s *Scripter) Install(b *simbmc.BMC) {
 	b.Intercept = func(b *simbmc.BMC, rx *simbmc.Rx) {
+		if rx.Pkt != nil && rx.Pkt.PayloadType != ref.PTIPMI {
+			return // RMCP+ session setup payloads are not scripted
+		}
 		if s.Match != nil && !s.Match(rx) {
 			return
 		}
